@@ -805,6 +805,28 @@ func (g *G) indexMap(want *m.Type, fuel int) *m.Expr {
 		}
 		return g.call("get", v, g.keyExpr(kt, 0), g.expr(want, fuel-1))
 	}
+	if kt.K == m.TNum && g.chance("zerokey", 1, 8) {
+		// a map holding the key 0, looked up with a computed zero - also the negative one
+		g.stat("zero-key")
+		zero := func() *m.Expr {
+			switch g.intn("zeroform", 6) {
+			case 0:
+				return m.Prefix("-", m.Lit("num", "0"))
+			case 1:
+				return m.Infix("*", m.Lit("num", "0"), m.Prefix("-", m.Lit("num", "1")))
+			case 2:
+				return m.Call("round", m.Prefix("-", m.Lit("num", "0.4")))
+			case 3:
+				return m.Call("ceil", m.Prefix("-", m.Lit("num", "0.5")))
+			case 4:
+				return m.Infix("-", m.Lit("num", "1"), m.Lit("num", "1"))
+			default:
+				return m.Lit("num", "0")
+			}
+		}
+		mp := m.MapE(zero(), g.expr(want, fuel-1), m.Lit("num", "1"), g.expr(want, fuel-1))
+		return m.Index(mp, zero())
+	}
 	lit := g.literal(mt, fuel)
 	if g.O.Partial && g.chance("freekey", 1, 3) {
 		g.stat("free-key")
